@@ -63,6 +63,20 @@ theorem C01_branch_restore (sc : Schema) (cfg : Cfg) (t : Table) (ltx : LocalTx)
   obtain ⟨u', hf, hp'⟩ := h3 u hp
   exact ⟨u', undoBranch_of_fold sc cfg u u' b hf, hp'⟩
 
+/-- The same when the application ignores failed statements of the local transaction (the database
+    undoes a failed statement by itself) and commits what went through. -/
+theorem C01_lenient_branch_restore (sc : Schema) (cfg : Cfg) (t : Table) (ltx : LocalTx)
+    (hsc : WFSchema sc) (ht : WFTable sc t) (hs : ∀ p ∈ ltx, WFStmt sc p.1) :
+    WFTable sc (localPhase1Lenient sc cfg t ltx).1 ∧
+    ∀ u : Table, u.Perm (localPhase1Lenient sc cfg t ltx).1 →
+      ∃ u', undoBranch sc cfg u (localPhase1Lenient sc cfg t ltx).2.1 = (u', true) ∧ u'.Perm t := by
+  have _ := hsc
+  obtain ⟨⟨h1, h2⟩, h3⟩ := lenient_restore sc cfg ltx t ht.uniq ht.shape
+    (fun p hp => (wfStmt_iff sc p.1).1 (hs p hp))
+  refine ⟨⟨h1, h2⟩, fun u hp => ?_⟩
+  obtain ⟨u', hf, hp'⟩ := h3 u hp
+  exact ⟨u', undoBranch_of_fold sc cfg u u' _ hf, hp'⟩
+
 /-! ### the global transaction -/
 
 /-- phase one of the local transactions of a global transaction, in order -/
